@@ -71,8 +71,12 @@ def check_single(A, v, Qd, Hd, m, tol, dt, kdim, detectable, K=None, assert_coun
     rt, eps = kf.tol_of(dt)
     sA = max(float(np.abs(A).sum(1).max()), 1e-300)
     cap = min(m, n)
-    if Qd.shape != (n, m + 1) or Hd.shape != (m + 1, m):
-        return [("shape", f"Q {Qd.shape} H {Hd.shape}, expected ({n}, {m + 1}) and ({m + 1}, {m})", {})]
+    # buffers sized by the requested max_iters (pinned snapshot) or by the request clamped to n
+    mb = Hd.shape[1] if Hd.ndim == 2 else -1
+    if mb not in (m, cap) or Qd.shape != (n, mb + 1) or Hd.shape != (mb + 1, mb):
+        return [("shape", f"Q {Qd.shape} H {Hd.shape}, expected ({n}, {m + 1}) and ({m + 1}, {m}) [or clamped to "
+                 f"min(max_iters, n) = {cap}]", {})]
+    m = mb
     if not (np.all(np.isfinite(Qd)) and np.all(np.isfinite(Hd))):
         return [("finite", "non-finite entries in Q or H", {})]
     Q, H = Qd.astype(np.complex128), Hd.astype(np.complex128)
@@ -81,13 +85,7 @@ def check_single(A, v, Qd, Hd, m, tol, dt, kdim, detectable, K=None, assert_coun
     # number of Arnoldi steps made: from the loop recorder (a computed column of H can be entirely zero)
     s_obs = steps_observed(H) if steps is None else steps
     kdim_in, detectable_in = kdim, detectable
-    if hs is not None and kdim is not None and len(hs):
-        if kdim < n and kdim <= len(hs) and not hs[kdim - 1] <= 1e-2 * tol * hs[0]:
-            detectable = False          # the reference does not confirm a residual safely below the threshold
-        amb = [j + 1 for j in range(min(len(hs), kdim)) if hs[j] <= 1e2 * tol * hs[0]]
-        if amb and amb[0] <= s_obs < min(cap, kdim):
-            kdim = s_obs                # numerically invariant subspace: a stop here is as good as a breakdown
-            detectable = True
+    kdim, detectable = kf.gate(hs, kdim, n, tol, sA, detectable, s_obs, cap)
     exhausted = kdim is not None and kdim <= cap
     s_exp = min(cap, kdim) if kdim is not None else None
     ortho = min(m + 1, kdim) if kdim is not None else None
@@ -129,12 +127,18 @@ def check_single(A, v, Qd, Hd, m, tol, dt, kdim, detectable, K=None, assert_coun
         # first column that is not orthonormal to its predecessors: single-pass Gram-Schmidt loses orthogonality
         # gradually (late onset), a wrong inner product or recurrence fails from the start
         first = next((j for j in range(lead) if np.abs(G[:j + 1, j] - np.eye(creq)[:j + 1, j]).max() > rt), None)
-        onset = None if first is None else ("late" if first >= max(8, creq // 2) else "early")
+        onset, ref_loss = None, None
+        if first is not None:
+            # the documented mechanism is ONE modified Gram-Schmidt pass: if the harness' own single-pass run in the
+            # same precision loses orthogonality to the same order, the loss is inherent to the mechanism
+            ref_loss = kf.ref_mgs_loss(A, v, lead)
+            onset = "mgs" if (ref_loss > rt / 100 and dl <= 100 * ref_loss) else "other"
         orth_lost = onset
         out.append(("orthonormal", f"max|Q^H Q - I| = {kf.fmt(d)} on the first {creq} columns (bad columns {bad}, "
                     f"norms {[float(kf.fmt(abs(G[j, j]) ** .5)) for j in bad[:4]]}; leading {lead}: {kf.fmt(dl)})",
                     {"trailing_only": bool(ortho is not None and dl <= rt and lead < creq), "exhausted": bool(exhausted),
-                     "n_bad": len(bad), "onset": onset, "first_bad": first}))
+                     "n_bad": len(bad), "onset": onset, "first_bad": first,
+                     "ref_mgs_loss": None if ref_loss is None else float(kf.fmt(ref_loss))}))
     # upper Hessenberg, non-negative real sub-diagonal
     msgs = []
     Hfull = Hd.astype(np.complex128)
@@ -190,7 +194,7 @@ def check_single(A, v, Qd, Hd, m, tol, dt, kdim, detectable, K=None, assert_coun
 
 def check_same_as_n(Qd, Hd, Qn, Hn, n, m):
     """max_iters > n gives the same factorisation as n steps."""
-    if Qd.shape != (n, m + 1) or Hd.shape != (m + 1, m) or Qn.shape != (n, n + 1):
+    if Qd.shape[1] < n + 1 or Hd.shape[0] < n + 1 or Hd.shape[1] < n or Qn.shape != (n, n + 1):
         return None
     dq = np.abs(Qd[:, :n + 1] - Qn).max()
     dh = np.abs(Hd[:n + 1, :n] - Hn).max()
@@ -299,7 +303,15 @@ def run_family(item, A, vs, kdims, Ks, wants, etol_rel, detect_ok, ms, hss=None)
     viol, traces, nchk = [], [], 0
     batched = len(vs) > 1
     run_n = None
-    hss = hss if hss is not None else [None] * len(vs)
+    jmax = 6 if dt in ("f64", "c128") else 4
+    thr = 1e-6 if dt in ("f64", "c128") else 1e-2
+    hss = []
+    Ks = list(Ks)
+    for b, x in enumerate(vs):
+        Kr, hs = kf.ref_for(A_t, x.astype(npd), kdims[b], n, jmax, thr * item.get("thr_scale", 1.0), detect_ok)
+        hss.append(hs if kdims[b] is not None else None)
+        if Ks[b] is None:
+            Ks[b] = Kr
     for m in ms:
         if item.get("only_m") is not None and m != item["only_m"]:
             continue
@@ -354,7 +366,8 @@ def run_family(item, A, vs, kdims, Ks, wants, etol_rel, detect_ok, ms, hss=None)
                 kmax = max(kdims) if known else None
                 uniform = known and len(set(kdims)) == 1
                 uni = {"uniform_kdim": uniform, "min_kdim": min(kdims) if known else None}
-                if QA.shape != (nb, n, m + 1) or HA.shape != (nb, m + 1, m):
+                mb = HA.shape[-1] if HA.ndim == 3 else -1
+                if mb not in (m, min(m, n)) or QA.shape != (nb, n, mb + 1) or HA.shape != (nb, mb + 1, mb):
                     viol.append(mk_viol(item, "shape", f"batched Q {QA.shape} H {HA.shape}", m, uni, n, kmax, True,
                                         "arnoldi", dt, tol))
                     continue
@@ -472,18 +485,10 @@ def observe_random(item):
     sep_ok = all(item2 for item2 in seps)
     near = min(gaps) if gaps else scale
     kd_ok = sep_ok and condV * eps * 1e3 <= min(item["tol"], rt) and (max(kdims) <= 16 or vk == "generic")
-    jmax = 6 if item["dt"] in ("f64", "c128") else 4
-    thr = 1e-6 if item["dt"] in ("f64", "c128") else 1e-2
     sA = float(np.abs(A).sum(1).max())
-    Ks, hss = [], []
-    mmax = min(n, max(item["ms"]))
-    for v, kd in zip(vs, kdims):
-        Qr, hs = kf.ref_krylov(A, v, min(n, max(jmax, min(kd, mmax) + 1)) if kd_ok else min(jmax, n))
-        j = 1
-        while j < min(Qr.shape[1], jmax, kd if kd_ok else jmax) and hs[j - 1] > thr * sA * max(1.0, condV * 1e-2):
-            j += 1
-        Ks.append(Qr[:, :j])
-        hss.append(hs if kd_ok else None)
+    Ks = [None] * nb
+    item = dict(item)
+    item["thr_scale"] = max(1.0, condV * 1e-2)
     etol_rel = max(rt, 1e3 * eps * condV, 10 * item["tol"])
     eig_ok = kd_ok and etol_rel < 1e-2 and (near > 10 * etol_rel * sA or kind.startswith("herm"))
     if not eig_ok:
@@ -491,7 +496,7 @@ def observe_random(item):
     kd_use = kdims if kd_ok else [None] * nb
     if not kd_ok:
         wants = [None] * nb
-    return run_family(item, A, vs, kd_use, Ks, wants, etol_rel, kd_ok, item["ms"], hss=hss)
+    return run_family(item, A, vs, kd_use, Ks, wants, etol_rel, kd_ok, item["ms"])
 
 
 def default_object_check(seed):
@@ -582,7 +587,7 @@ def plan(cs, tier, seed):
                                 sorted({1, 3, n // 2, n, n + 1, n + 20})
                         else:
                             ms = sorted({1, 5, n // 3, n, n + 20}) if not quick else sorted({5, n // 4, n, n + 10})
-                        for tol in tols:
+                        for tol in tols * (1 if quick or n > 64 else 3):
                             items.append({"src": "random", "name": f"rand-{kind}-{'c' if cplx else 'r'}-n{n}-{vk}",
                                           "seed": int(rng.randint(1 << 30)), "n": n, "kind": kind, "cplx": cplx,
                                           "vkind": vk, "k": int(rng.randint(2, 5)), "dt": dt, "tol": tol, "ms": ms,
@@ -622,7 +627,7 @@ def run(tier):
             traces_v = [traces[int(i * step)] for i in range(cap_tr)]
         else:
             traces_v = traces
-        keys = ("alg", "n", "m", "b", "evs", "buf", "fin")
+        keys = ("alg", "n", "m", "mb", "b", "evs", "buf", "fin")
         verdicts, tres, neg = kf.validate_traces(PROP, wd, [{k: t[k] for k in keys} for t in traces_v])
         for k, t in enumerate(traces_v, start=1):
             vd = verdicts[k]
@@ -637,6 +642,7 @@ def run(tier):
                                       replay={"trace": {k2: t[k2] for k2 in keys}}))
     finally:
         common.cleanup(wd)
+    viol, n_viol_raw = kf.cap_violations(viol)
     cat_items = [it for it in items if it["src"] == "catalog"]
     samples = [f"{it['name']} {it['dt']} tol={it['tol']:g}" for it in items[:: max(1, len(items) // 6)][:6]]
     cov = {
@@ -649,7 +655,7 @@ def run(tier):
         "catalog_cases": stats["catalog_cases"], "catalog_items": len(cat_items),
         "random_items": len(items) - len(cat_items),
         "mc_krylov_states": stats["mc_krylov_states"], "mc_loopcontrol_states": stats["mc_loopcontrol_states"],
-        "trace_states": tres.distinct, "traces_recorded": len(traces), "negative_controls_rejected": neg,
+        "violations_before_dedup_cap": n_viol_raw, "trace_states": tres.distinct, "traces_recorded": len(traces), "negative_controls_rejected": neg,
         "tlc_wall_s": stats["tlc_wall_s"] + round(tres.wall, 1),
         "checker_cmd": "tlc MC_Krylov.tla (Krylov.tla, LoopControl.tla, generated KrylovCatalog.tla) ; "
                        "tlc MC_LoopControl.tla ; tlc Trace_LoopControl.tla",
